@@ -19,6 +19,9 @@ from framework import graph_replay, replay_tlc_trace
 
 ALL_MODES = ["fn", "fnsync", "retfut", "async", "asyncsync", "setval", "setexc", "late", "init"]
 ALL_KINDS = ["val", "exc", "drop", "dtor"]
+# blocking entry points of shared_future bound to the blocking waiter of the specification (BeginWait(h, form)):
+# wait() / sync() then value() / force_sync() / join() / force_wait() -- the force_ forms on a thread in coroutine mode
+ALL_FORMS = ["wait", "syncval", "fsync", "join", "fwait"]
 
 HPC = {"idle": "pre:op", "null_idle": "pre:op", "pre_pload": "pre:pload", "post_pload_p": "post:pload",
        "post_pload_n": "post:pload", "pre_check": "pre:check", "post_check_r": "post:check", "post_check_n": "post:check",
@@ -70,25 +73,31 @@ def proj(st):
         "pend": pend,
         "resumes": st["resumes"],
         "seen": st["seen"],
+        "threw": st["threw"],
     }
 
 
-def constants(H, modes, kinds, co=(), bl=(), cb=(), po=(), copies=1, handles=2, variant="code", fixed=True, rounds=1, ways=()):
+def constants(H, modes, kinds, co=(), bl=(), cb=(), po=(), copies=1, handles=2, variant="code", fixed=True, rounds=1, ways=(),
+              forms=ALL_FORMS, shift=0, free=False):
     return {"H": sset(H), "Ctor": '"%s"' % H[0], "Modes": sset(modes), "RKinds": sset(kinds), "HCo": sset(co),
             "HBl": sset(bl), "HCb": sset(cb), "HPoll": sset(po), "MaxCopies": str(copies), "MaxHandles": str(handles),
-            "Variant": '"%s"' % variant, "Fixed": "TRUE" if fixed else "FALSE", "MaxRounds": str(rounds), "ReArmWays": sset(ways)}
+            "Variant": '"%s"' % variant, "Fixed": "TRUE" if fixed else "FALSE", "MaxRounds": str(rounds), "ReArmWays": sset(ways),
+            "BlForms": sset(forms), "FormShift": str(shift), "FreeForms": "TRUE" if free else "FALSE"}
 
 
 ALL_WAYS = ["shl", "shlready", "assign"]
 
 
 def run_cfg(ctx, rp, tag, H, modes, kinds, co=(), bl=(), cb=(), po=(), copies=1, handles=2, max_paths=None,
-            must=None, env=None, rounds=1, ways=()):
-    consts = constants(H, modes, kinds, co, bl, cb, po, copies, handles, rounds=rounds, ways=ways)
+            must=None, env=None, rounds=1, ways=(), forms=ALL_FORMS, shift=0, free=False):
+    """shift: rotation offset of the blocking form (the form of a blocking call is a function of mode, resolver kind,
+    round, thread and this offset -- API-form rotation inside the specification); free: every form at every call"""
+    consts = constants(H, modes, kinds, co, bl, cb, po, copies, handles, rounds=rounds, ways=ways, forms=forms,
+                       shift=shift + ctx.seed, free=free)
 
     def hdr(k, st0):
         return {"H": list(H), "ctor": H[0]}
-    must_take = ["Drop", "PreCAS", "PostCAS"] + (must or [])
+    must_take = ["Drop", "PreCAS", "PostCAS"] + (["BeginWait", "PreWait"] if bl else []) + (must or [])
     res, g = graph_replay(ctx, "SharedFuture", "SharedFuture", "SharedFuture_base.cfg", tag, rp, proj, header_fn=hdr,
                           constants=consts, must_take=must_take, max_paths=max_paths, tlc_kw={"workers": 4},
                           replay_timeout=1800, env=env)
@@ -194,14 +203,21 @@ def run(ctx):
         ctx.exhaustive = False
         # one handle thread against the resolver: every construction mode, every resolver kind (sampled paths)
         run_cfg(ctx, rp, "s1", h1, modes, ALL_KINDS, co=h1, bl=h1, po=h1, copies=1, handles=2, max_paths=3000, must=seq_must)
-        run_cfg(ctx, rp, "s2", h1, ["fn", "late", "setval"], ["val", "drop"], cb=h1, bl=h1, copies=1, handles=2, must=["BeginCb"])
+        run_cfg(ctx, rp, "s2", h1, ["fn", "late", "setval"], ["val", "drop"], cb=h1, bl=h1, copies=1, handles=2, must=["BeginCb"], shift=1)
         # two handle threads: drop of the last handle against the resolver's chain walk / tracer release
         kinds = [ALL_KINDS[ctx.seed % 4]]
-        run_cfg(ctx, rp_asan, "c1", h2, ["fn"], kinds, co=["h1"], bl=["h2"], copies=1, handles=1, must=["Copy"], env=asan_env)
+        run_cfg(ctx, rp_asan, "c1", h2, ["fn"], kinds, co=["h1"], bl=["h2"], copies=1, handles=1, must=["Copy"], env=asan_env, shift=2)
         # (init: copies exist before get_promise(); the earlier copies' awaiters must be released with the result)
         run_cfg(ctx, rp, "c2", h2, ["retfut", "async", "init"], ["val"], co=["h2"], po=["h1"], copies=1, handles=1, must=["GetPromise"])
-        run_cfg(ctx, rp, "c3", h2, ["fn"], ["val"], cb=["h1"], bl=["h2"], copies=2, handles=1)
-        run_cfg(ctx, rp, "c4", h2, [modes[-1]], ["val"], co=["h1"], bl=["h2"], po=["h2"], copies=2, handles=2, max_paths=1200)
+        run_cfg(ctx, rp, "c3", h2, ["fn"], ["val"], cb=["h1"], bl=["h2"], copies=2, handles=1, shift=3)
+        run_cfg(ctx, rp, "c4", h2, [modes[-1]], ["val"], co=["h1"], bl=["h2"], po=["h2"], copies=2, handles=2, max_paths=1200, shift=4)
+        # every blocking form of shared_future (wait / sync + value / force_sync / join / force_wait) as a free choice:
+        # one thread against every resolver kind (the throwing outcomes included) and an already resolved state; two
+        # holders, sanitized: the blocked thread may hold the last handle and drops it right after its call has
+        # returned, against the resolver's chain walk releasing the tracer (the other configurations rotate the form)
+        run_cfg(ctx, rp, "f1", h1, ["fn", "setexc"], ALL_KINDS, bl=h1, copies=0, handles=1, free=True, max_paths=1000)
+        run_cfg(ctx, rp_asan, "f2", h2, ["fn"], [ALL_KINDS[(ctx.seed + 1) % 4]], bl=["h2"], copies=1, handles=1,
+                must=["Copy"], env=asan_env, free=True)
         tlc_only(ctx, "live", h2, ["fn", "late"], kinds, co=["h1"], bl=["h2"], cb=["h2"], copies=1, handles=1)
         # rounds: a resolved state re-armed (operator<< pending / ready, assignment of a new shared_future) for a second
         # and third round, copies / awaiters / drops in every round
@@ -209,7 +225,7 @@ def run(ctx):
                 must=["ReArmAssign"] + (["ReArmShl"] if shl_fixed else []), max_paths=1000)
         if shl_fixed:
             run_cfg(ctx, rp, "r2", h2, ["fn"], ["val"], co=["h1"], bl=["h2"], copies=1, handles=1, rounds=2, ways=["shl"],
-                    must=["ReArmShl"], max_paths=500)
+                    must=["ReArmShl"], max_paths=500, shift=1)
         # sanitized replays (this one and c1; no weak_ptr probe): a touch of the state after the last reference is gone
         # aborts the replayer
         run_cfg(ctx, rp_asan, "a1", h1, ["fn", "late", "retfut", "async"], ["val", "dtor"], co=h1, cb=h1, copies=1, handles=1, env=asan_env)
@@ -219,12 +235,17 @@ def run(ctx):
                 must=seq_must + ["BeginCb"])
         run_cfg(ctx, rp, "c1val", h2, ["fn", "retfut"], ["val"], co=["h1"], bl=["h2"], po=["h2"], copies=2, handles=2, env=env)
         run_cfg(ctx, rp, "c1dtor", h2, ["fn"], ["dtor"], co=["h1"], bl=["h2"], po=["h2"], copies=2, handles=2, env=env)
-        run_cfg(ctx, rp, "c1exc", h2, ["fn", "retfut"], ["exc", "drop"], co=["h1"], bl=["h2"], copies=1, handles=1, env=env)
+        run_cfg(ctx, rp, "c1exc", h2, ["fn", "retfut"], ["exc", "drop"], co=["h1"], bl=["h2"], copies=1, handles=1, env=env, free=True,
+                max_paths=6000)
         run_cfg(ctx, rp, "c2", h2, [m for m in modes if m not in ("fn", "retfut")], ["val", "dtor"], co=["h2"], bl=["h1"],
                 copies=2, handles=2, env=env, max_paths=8000)
         run_cfg(ctx, rp, "c3", h2, ["fn", "retfut"], ["val", "drop"], cb=["h1"], bl=["h2"], co=["h2"], copies=2, handles=1, env=env,
                 max_paths=6000, must=["BeginCb"])
-        run_cfg(ctx, rp, "c4", h2, ["fn"], ["val", "exc"], co=h2, bl=h2, copies=1, handles=1, env=env, max_paths=6000)
+        run_cfg(ctx, rp, "c4", h2, ["fn"], ["val", "exc"], co=h2, bl=h2, copies=1, handles=1, env=env, max_paths=6000, shift=1)
+        run_cfg(ctx, rp, "f1", h1, [m for m in modes if m != "async"], ALL_KINDS, bl=h1, po=h1, copies=1, handles=2, env=env, free=True,
+                max_paths=8000)
+        run_cfg(ctx, rp, "f2", h2, ["fn", "late"], ["val", "dtor"], co=["h1"], bl=["h2"], copies=1, handles=1, env=env, free=True,
+                max_paths=8000)
         run_cfg(ctx, rp, "c5", h2, ["fn", "late"], ["val"], cb=h2, po=h2, copies=2, handles=2, env=env, max_paths=6000)
         run_cfg(ctx, rp, "c6", h2, ["init"], ["val", "dtor"], co=["h2"], bl=["h1"], po=["h2"], copies=2, handles=2, env=env, must=["GetPromise"])
         run_cfg(ctx, rp, "t3", ["h1", "h2", "h3"], ["fn"], ["val"], co=["h2"], bl=["h3"], copies=2, handles=1, env=env)
@@ -236,7 +257,8 @@ def run(ctx):
         tlc_only(ctx, "big", h2, ["fn"], ["val"], co=h2, bl=h2, cb=[], po=h2, copies=2, handles=2)
     ctx.assume("compare_exchange_weak does not fail spuriously (x86-64 lock cmpxchg); weak CAS is executed as strong under the controlled scheduler")
     ctx.assume("std::shared_ptr reference counting (libstdc++ atomics, not instrumented) is thread safe by itself: copy / drop of a handle and the tracer's release are atomic inside a local step; sequentially consistent interleavings only (memory order is C03's subject)")
-    ctx.assume("one resolver thread, one promise object; each handle thread makes each kind of call (co_await, wait(), callback subscribe, ready()/value()) at most once; bounds MaxCopies/MaxHandles per configuration")
+    ctx.assume("one resolver thread, one promise object; each handle thread makes each kind of call (co_await, blocking wait, callback subscribe, ready()/value()) at most once; bounds MaxCopies/MaxHandles per configuration")
+    ctx.assume("blocking forms of shared_future (wait / sync()+value() / force_sync() / join() / force_wait(), the force_ forms under an installed coro_queue) run the same protocol steps; the form of a call is rotated inside the specification (function of mode, resolver kind, round, thread, offset = configuration + VERIF_SEED) and a free choice in the configurations f1/f2; on an empty shared_future only ready()/value() are defined and driven (the blocking forms dereference the null pointer)")
     ctx.assume("rounds: a resolved state is re-armed (operator<< with a pending or ready future through any handle; assignment of a newly constructed shared_future by the sole holder of one handle) only when the resolver is done and every thread is between two calls -- re-arming needs exclusive access to the future (result_of rebuilds it in place); get_promise() on a resolved state is illegal (future.h:283-284) and not modelled; at most MaxRounds = 3 rounds")
     ctx.assume("handles are handed to other threads with the synchronisation the user must provide anyway (the scheduler's token passing)")
     ctx.assume("the callback awaiter keeps no handle and reads the result through the future reference: relies on the tracer being released last in the chain walk (stronger than the documented rule that every awaiter holds a handle)")
